@@ -186,6 +186,9 @@ def type_files(files, ty):
     return out
 
 
+LEGACY_NAMES = {"c": "c2", "cpp": "cpp2", "js": "js2", "dart": "dart2"}
+
+
 def main(tier, seed):
     chk = Check("C13", tier, seed, "exploration")
     thorough = tier == "thorough"
@@ -252,6 +255,17 @@ def main(tier, seed):
                 # the js run above); demo_gen's own files are the per-type demo modules and index.mjs next to it
                 fa = {p: t for p, t in fa.items() if not p.startswith(("js/", "rendering/"))}
                 fb = {p: t for p, t in fb.items() if not p.startswith(("js/", "rendering/"))}
+            # the legacy spelling of a backend's name (`c2`, `cpp2`, `js2`, `dart2`: "the HIR backends used to be named ...") selects the same
+            # backend, so every condition has to evaluate as it does under the canonical name (seed C13-g): byte-identical output
+            if b in LEGACY_NAMES:
+                rc, o, e = toolrun.run_tool(LEGACY_NAMES[b], srcs["attr"], os.path.join(d, "attr", "out_" + LEGACY_NAMES[b]), config_file=cfgp)
+                out["runs"] += 1
+                fl = read_all(os.path.join(d, "attr", "out_" + LEGACY_NAMES[b])) if rc == 0 else None
+                if fl != fa:
+                    diff = sorted(p for p in set(fl or {}) | set(fa) if (fl or {}).get(p) != fa.get(p))
+                    out["viol"].append((b, batch[0][0], "legacy-name", batch[0][2], "-", "run as `%s` the backend %s (%d files differ from the run as `%s`, e.g. %s)" % (
+                        LEGACY_NAMES[b], "fails: " + e[-200:] if rc != 0 else "evaluates the batch's conditions differently", len(diff), b, diff[:3])))
+                out["cmp"] += len(fa)
             ia = Index(fa)
             for k, kind, f in batch:
                 v = feval(f, b)
@@ -347,7 +361,8 @@ def main(tier, seed):
     chk.rule = ("condition formulas: every formula of depth <= 2 over {*, 7 backend names, %d supports flags} with binary any/all (exhaustive in thorough, "
                 "sampled in quick) plus seeded random depth-3 formulas; each placed as disable/rename on a probe type, one of its methods, its impl block "
                 "or its bridge module; %d probes per tool run x 7 backends. Model = 12-line formula evaluator with supports= atoms read from the working "
-                "tree's attr_support(). distinct_nontrivial = distinct (placement kind, formula) pairs other than `*`." % (len(FLAGS), BATCH))
+                "tree's attr_support(). Every batch is also generated under the legacy backend names c2 / cpp2 / js2 / dart2, whose output must be byte-identical "
+                "to the canonical name's. distinct_nontrivial = distinct (placement kind, formula) pairs other than `*`." % (len(FLAGS), BATCH))
     chk.exhaustive = thorough
     chk.extra = dict(stats, probes=len(probes), batches=len(batches), kinds=KINDS)
     for k, kind, f in probes[:3]:
